@@ -365,6 +365,45 @@ impl ArcRcvdJournal {
     }
 }
 
+/// Verification hook (read-only, compiled only with `--cfg gmquic_verif`): canonical dump of the
+/// received-packet journal. Times are milliseconds since `base`; hash sets are sorted.
+#[cfg(gmquic_verif)]
+impl ArcRcvdJournal {
+    pub fn verif_dump(&self, base: Instant) -> Vec<i128> {
+        let ms = |t: &Instant| t.saturating_duration_since(base).as_millis() as i128;
+        let j = self.inner.read().unwrap();
+        let mut out = vec![
+            j.queue.offset() as i128,
+            j.queue.len() as i128,
+            j.max_ack_delay.map_or(-1, |d| d.as_millis() as i128),
+        ];
+        let mut incl: Vec<u64> = j.packet_include_ack.iter().copied().collect();
+        incl.sort_unstable();
+        out.push(incl.len() as i128);
+        out.extend(incl.iter().map(|p| *p as i128));
+        match &j.earliest_not_ack_time {
+            Some((pn, t)) => out.extend([1, *pn as i128, ms(t)]),
+            None => out.push(0),
+        }
+        for s in j.queue.iter() {
+            match s {
+                State::Empty => out.push(0),
+                State::PacketReceived(rt, ack, exp) => {
+                    out.extend([1, ms(rt), ack.as_ref().map_or(-1, ms), ms(exp)])
+                }
+                State::AckSent(el, rt, exp, pns) => {
+                    let mut pns: Vec<u64> = pns.iter().copied().collect();
+                    pns.sort_unstable();
+                    out.extend([2, *el as i128, ms(rt), ms(exp), pns.len() as i128]);
+                    out.extend(pns.iter().map(|p| *p as i128));
+                }
+                State::AckConfirmed(el, rt, exp) => out.extend([3, *el as i128, ms(rt), ms(exp)]),
+            }
+        }
+        out
+    }
+}
+
 pub struct AckPackege<'r> {
     journal: &'r ArcRcvdJournal,
     need_ack: Option<(u64, Instant)>,
